@@ -509,7 +509,7 @@ pub fn run(ctx: &Ctx) {
     ctx.subspace("age limits 0..=65535 (step per tier) x 8 boundary offsets in both directions", 65536 / ttl_step * 8, ttl_step == 1);
 
     // (5) proptest: embedded texts without stray complete markers (exact oracle), with shrinking
-    let n1: u32 = ctx.tier.pick(6_000, 120_000);
+    let n1: u32 = ctx.tier.pick(30_000, 300_000);
     ctx.proptest("pt-clean", n1, || case_strategy(false), |c| {
         let v = check_case(ctx, c);
         ctx.sample("embedded-text", || serde_json::to_value(c).unwrap());
@@ -518,7 +518,7 @@ pub fn run(ctx: &Ctx) {
     ctx.subspace("proptest: host texts with separators / partial markers / several beacons", n1 as u64, false);
 
     // (6) proptest: texts with overlapping markers and marker-framed garbage
-    let n2: u32 = ctx.tier.pick(6_000, 120_000);
+    let n2: u32 = ctx.tier.pick(30_000, 300_000);
     ctx.proptest("pt-stray", n2, || case_strategy(true), |c| {
         let v = check_case(ctx, c);
         ctx.sample("stray-markers", || serde_json::to_value(c).unwrap());
@@ -527,7 +527,7 @@ pub fn run(ctx: &Ctx) {
     ctx.subspace("proptest: host texts with overlapping markers and marker-framed random bodies", n2 as u64, false);
 
     // (7) arbitrary unicode text (panic freedom)
-    let n3: u32 = ctx.tier.pick(4_000, 100_000);
+    let n3: u32 = ctx.tier.pick(30_000, 300_000);
     ctx.proptest(
         "pt-text",
         n3,
